@@ -196,9 +196,14 @@ type vc07Pair struct {
 	A      uint32  `json:"a"`     // bit i set: node A starts with transaction i
 	B      uint32  `json:"b"`
 	Queued bool    `json:"queued"` // true: the non-shared transactions are created AFTER the connection is up (they sit in the gossip queues)
+	// Private: "" | "no-payload" | "payload-at-holder" (see vc07NewUniversePrivate)
+	Private string `json:"private,omitempty"`
 }
 
 func (p vc07Pair) String() string {
+	if p.Private != "" {
+		return fmt.Sprintf("shape=%v A=%b B=%b queued=%v private=%s", p.Shape, p.A, p.B, p.Queued, p.Private)
+	}
 	return fmt.Sprintf("shape=%v A=%b B=%b queued=%v", p.Shape, p.A, p.B, p.Queued)
 }
 
@@ -409,7 +414,7 @@ type vc07Setup struct {
 
 func vc07Prepare(t testing.TB, dir string, pair vc07Pair) *vc07Setup {
 	n := len(pair.Shape)
-	u := vc07NewUniverse(fmt.Sprint(pair.Shape), pair.Shape)
+	u := vc07NewUniversePrivate(fmt.Sprint(pair.Shape), pair.Shape, pair.Private)
 	s := &vc07Setup{pair: pair, u: u}
 	shared := pair.A & pair.B
 	var init [2][]int
@@ -617,6 +622,13 @@ func TestVerifC07Small(t *testing.T) {
 	// state graph with one fault has ~45 000 transitions per pair against ~5 000 for a one-way pair).
 	budgetFor := func(p vc07Pair) int {
 		union, twoWay := len(p.Shape), p.A&^p.B != 0 && p.B&^p.A != 0
+		if p.Private != "" {
+			// the private variants repeat the graphs of the public ones: fault-free in quick, one fault up to a union of 3 in thorough
+			if r.Thorough() && union <= 3 {
+				return 1
+			}
+			return 0
+		}
 		if !r.Thorough() {
 			// quick: one fault for every pair up to a union of 3 (all four one-way graphs have the same size for every
 			// larger union: 1 805 states / 5 250 transitions unsplit, measured), fault-free search for the unions of 4
@@ -664,7 +676,8 @@ func TestVerifC07Small(t *testing.T) {
 
 	r.Rule("initial pairs: every pair (A,B) of causally closed transaction sets over a shared root with A∪B = a DAG of at most maxUnion transactions " +
 		"(every shape whose prevs are antichains, up to isomorphism and swapping A/B), each with the differing transactions present before the connection " +
-		"(empty gossip queues) and, up to the union size given under bounds, a second time with them created after it (queued for gossip). From each pair a breadth-first search over event histories of the two REAL protocol " +
+		"(empty gossip queues) and, up to the union size given under bounds, a second time with them created after it (queued for gossip); every pair again with all non-root " +
+		"transactions PRIVATE, the payload held by no node / by the nodes that start with the transaction (convergence is judged on the transaction set). From each pair a breadth-first search over event histories of the two REAL protocol " +
 		"instances to quiescence: deliver(m) for any in-flight m, tick(node), expire(node) and, charged to a budget, drop(m), dup(m) (deliver and leave a copy in flight " +
 		"for arbitrarily late re-delivery; stale(m) is the delivery of such a copy at any later moment), lexpire(node) (expiry while messages are in flight). " +
 		"A pair with a fault budget is searched as nine jobs, one per class (kind, node) of the FIRST fault (nine classes, the three stream-loss classes split again into idle/busy; for a pair whose nodes are mirror images the classes at node 1 are skipped; quick searches stream loss on the one-way pairs only); states are merged by canonical form (App. B.3) within a job, " +
@@ -674,7 +687,18 @@ func TestVerifC07Small(t *testing.T) {
 		queuedUpTo = maxUnion
 	}
 	pairs := vc07Pairs(maxUnion, queuedUpTo)
+	// every non-trivial pair again with PRIVATE transactions: payload held by nobody / by the nodes that start with the transaction
+	for _, p := range append([]vc07Pair{}, pairs...) {
+		if p.A != p.B {
+			for _, v := range []string{"no-payload", "payload-at-holder"} {
+				q := p
+				q.Private = v
+				pairs = append(pairs, q)
+			}
+		}
+	}
 	r.Bound("queued_variant_up_to_union", queuedUpTo)
+	r.Bound("private_variants", []string{"no-payload", "payload-at-holder"})
 	if os.Getenv("VERIF_C07_COUNTONLY") != "" {
 		for k := 2; k <= 6; k++ {
 			ps := vc07Pairs(k, k)
@@ -777,6 +801,9 @@ func TestVerifC07Small(t *testing.T) {
 		way := "one-way"
 		if p.A&^p.B != 0 && p.B&^p.A != 0 {
 			way = "two-way"
+		}
+		if p.Private != "" {
+			way += "_private"
 		}
 		bb[fmt.Sprintf("union_%d_%s", len(p.Shape), way)] = budgetFor(p)
 	}
